@@ -16,10 +16,13 @@ def mv_bytes(m,bs): return [model_value(m,x) for x in bs]
 class RoundTrip(Obligation):
     """unpack(pack(t,p)) == (p,t) for every type string and payload within the size bound"""
     name='C20.pae_roundtrip'
-    def __init__(self,max_t=3,max_p=4,seed=0,known=(),**kw):
-        self.max_t=max_t; self.max_p=max_p; self.seed=seed
+    def __init__(self,max_t=3,max_p=4,seed=0,known=(),lens=None,**kw):
+        self.max_t=max_t; self.max_p=max_p; self.seed=seed; self.lens=list(lens) if lens else None
         self.bounds={'payload_type':'0..%d bytes: any ASCII bytes (space, digits included) or the 2-byte char U+00E9 at the front'%max_t,'payload':'0..%d arbitrary bytes'%max_p}
-        self.witnesses=['roundtrip_ok','type_with_space','payload_with_digit_and_space']; self.seen=set()
+        if self.lens:
+            self.name='C20.pae_roundtrip_long'
+            self.bounds={'lengths':'type and payload lengths each from %s (around the points where the decimal length field gains a digit)'%self.lens,'content':'the first two bytes of each free (type: ASCII), the rest a fixed filler byte'}
+        self.witnesses=['roundtrip_ok']+([] if self.lens else ['type_with_space','payload_with_digit_and_space']); self.seen=set()
     def setup(self,eng,tier):
         self.eng=eng
         self.pack=eng.find_method('DSSEParser','PaeV1','pae_pack'); self.unpack=eng.find_method('DSSEParser','PaeV1','pae_unpack')
@@ -31,6 +34,10 @@ class RoundTrip(Obligation):
         self.rt=rt
     def entry(self,eng): return self.rt
     def mk_args(self,run):
+        if self.lens:
+            nt=self.lens[run.pick(len(self.lens),'len_t')]; np_=self.lens[run.pick(len(self.lens),'len_p')]
+            t=sym_bytes('t',min(nt,2),True,run)+[0x78]*max(0,nt-2); p=sym_bytes('p',min(np_,2))+[0x79]*max(0,np_-2)
+            return (t,p),{'t':t,'p':p}
         nt=run.pick(self.max_t+1,'len_t'); np_=run.pick(self.max_p+1,'len_p')
         nonascii=nt>=2 and run.pick(2,'nonascii')
         t=sym_bytes('t',nt,True,run)
@@ -53,8 +60,8 @@ class RoundTrip(Obligation):
         if r==z3.sat:
             rec['viol']={'kind':'roundtrip_changes_pair','known_key':None,'scenario':self.scn(g,m),'predicted':'ok-different','what':'unpack(pack(type,payload)) returns a different pair'}; return rec
         wit('roundtrip_ok',z3.BoolVal(True))
-        if g['t']: wit('type_with_space',z3.Or(*[x==0x20 for x in g['t'] if not isinstance(x,int)]) if any(not isinstance(x,int) for x in g['t']) else z3.BoolVal(False))
-        if len(g['p'])>=2: wit('payload_with_digit_and_space',z3.And(g['p'][0]==0x31,g['p'][1]==0x20))
+        if g['t'] and not self.lens: wit('type_with_space',z3.Or(*[x==0x20 for x in g['t'] if not isinstance(x,int)]) if any(not isinstance(x,int) for x in g['t']) else z3.BoolVal(False))
+        if len(g['p'])>=2 and not self.lens: wit('payload_with_digit_and_space',z3.And(g['p'][0]==0x31,g['p'][1]==0x20))
         if is_sample(run,self.seed,3):
             r,m=run.check_sat(z3.BoolVal(True))
             if r==z3.sat: rec['sample']={'scenario':self.scn(g,m),'expect':'ok'}
